@@ -19,6 +19,7 @@ Counterexamples are realised into concrete Python values, and are only
 from __future__ import annotations
 
 import inspect
+import signal
 import sys
 import time
 import traceback
@@ -58,6 +59,11 @@ class PropertyFailure(AssertionError):
         super().__init__(msg)
         self.msg = msg
         self.detail = detail
+
+
+class PathWatchdog(BaseException):
+    """Raised by a SIGALRM watchdog when one path runs far beyond its time budget
+    (e.g. the program under test loops forever on these inputs)."""
 
 
 class Reject(Exception):
@@ -216,6 +222,10 @@ def explore(
             per_condition_timeout=timeout_s, per_path_timeout=per_path_timeout
         )
     )
+    def _alarm(signum, frame):
+        raise PathWatchdog()
+
+    signal.signal(signal.SIGALRM, _alarm)
     z0 = dict(_Z3)
     t_wall = time.perf_counter()
     t_cpu = process_time()
@@ -239,8 +249,12 @@ def explore(
             try:
                 pre_args = gen_args(sig)
                 args = deepcopyext(pre_args, CopyMode.REGULAR, {})
-                with ExceptionFilter() as ef, ResumedTracing():
-                    harness(*args.args, **args.kwargs)
+                signal.setitimer(signal.ITIMER_REAL, per_path_timeout * 2 + 5)
+                try:
+                    with ExceptionFilter() as ef, ResumedTracing():
+                        harness(*args.args, **args.kwargs)
+                finally:
+                    signal.setitimer(signal.ITIMER_REAL, 0)
                 if ef.ignore:
                     status = None
                     res.ignored += 1
@@ -272,6 +286,10 @@ def explore(
             except IgnoreAttempt:
                 status = None
                 res.ignored += 1
+            except PathWatchdog:
+                status = VerificationStatus.UNKNOWN
+                res.unknown += 1
+                res.unknown_reasons.append("path watchdog: one path exceeded twice its time budget")
             except UnexploredPath as e:
                 status = VerificationStatus.UNKNOWN
                 res.unknown += 1
